@@ -10,6 +10,7 @@ import (
 	"runtime"
 	"sort"
 	"sync"
+	"sync/atomic"
 	"time"
 
 	"github.com/reactivego/ivg"
@@ -50,7 +51,7 @@ func init() {
 				return 96
 			}, Run: c18Round,
 				Min: map[string]int64{"tasks": 50000, "overlapping_same_input_pairs": 1000, "rounds": 50, "globals_hash_checks": 50, "kind_render_log": 1000, "kind_render_pixels": 1000, "kind_transcode": 1000, "kind_disassemble": 1000,
-					"kind_viewbox": 1000, "kind_options": 1000, "kind_generator": 1000, "kind_mdicons": 1000, "kind_helpers": 1000, "kind_encode_defaults": 1000}},
+					"kind_viewbox": 1000, "buffers_reused_for_another_graphic": 500, "kind_options": 1000, "kind_generator": 1000, "kind_mdicons": 1000, "kind_helpers": 1000, "kind_encode_defaults": 1000}},
 		},
 	})
 }
@@ -78,7 +79,9 @@ type shared18 struct {
 	factors    []float32
 	// grad is one gradient paint that all pipelines read (At and the accessors)
 	grad *render.Gradient
-	circ []mdicons.Circle
+	// gradStops is a stop list with two stops at the same offset (a hard transition), used to initialise private Gradients
+	gradStops []render.Stop
+	circ      []mdicons.Circle
 	// opts is a shared, read-only option table with spare capacity; tasks pass prefix views of it
 	opts []decode.DecodeOption
 }
@@ -126,7 +129,26 @@ func task18(kind int, in int, sh *shared18, variant uint64) [32]byte {
 		return sha256.Sum256(o)
 	case 4:
 		vb, err := decode.DecodeViewBox(b)
-		return sha256.Sum256([]byte(fmt.Sprint(vb, err)))
+		// A caller reads one graphic after another into a buffer of its own: what
+		// comes back belongs to the bytes that are in the buffer now, not to the
+		// buffer (compared with the same bytes in a slice of their own).
+		buf := append([]byte(nil), b...)
+		vb1, _ := decode.DecodeViewBox(buf)
+		// the next graphic has the same length and another viewBox (1-byte coordinates)
+		var vb2 ivg.ViewBox
+		var err2 error
+		if len(buf) > 11 && buf[4] == 0x02 && buf[5] == 0x0a && buf[6] == 0x00 && buf[7]&1 == 0 && (buf[7]^0x04) <= buf[9] {
+			other := append([]byte(nil), buf...)
+			other[7] ^= 0x04
+			copy(buf, other)
+			vb2, err2 = decode.DecodeViewBox(buf)
+			vbOwn, errOwn := decode.DecodeViewBox(other)
+			if vb2 != vbOwn || (err2 == nil) != (errOwn == nil) {
+				atomic.AddInt64(&c18BufferIdentity, 1)
+			}
+			atomic.AddInt64(&c18BufferReuses, 1)
+		}
+		return sha256.Sum256([]byte(fmt.Sprint(vb, err, vb1, vb2, err2)))
 	case 5:
 		d := &rec.Dest{}
 		if variant%2 == 0 {
@@ -193,6 +215,12 @@ func task18(kind int, in int, sh *shared18, variant uint64) [32]byte {
 			r, g, b, a := k.RGBA()
 			h.Write([]byte{byte(r >> 8), byte(g >> 8), byte(b >> 8), byte(a >> 8)})
 		}
+		var own render.Gradient
+		own.Init(render.ShapeLinear, render.SpreadPad, render.Aff3{0.03, 0, 0.1, 0, 0, 0}, sh.gradStops) // shared stop list with a hard colour transition
+		for i := 0; i < 8; i++ {
+			r, g, b, a := own.At(i*4, 0).RGBA()
+			h.Write([]byte{byte(r >> 8), byte(g >> 8), byte(b >> 8), byte(a >> 8)})
+		}
 		offs := sh.grad.StopOffsets()
 		cols := sh.grad.StopColors()
 		for i := range offs {
@@ -240,7 +268,7 @@ func sharedHash18(sh *shared18) [32]byte {
 	for _, b := range sh.inputs {
 		h.Write(b)
 	}
-	h.Write([]byte(fmt.Sprintf("%+v", *sh.grad)))
+	h.Write([]byte(fmt.Sprintf("%+v %v", *sh.grad, sh.gradStops)))
 	h.Write([]byte(fmt.Sprint(*sh.pal, *sh.rawPal, *sh.rawReg, sh.stops, sh.stopsUnordered, sh.transforms, sh.factors[:cap(sh.factors)], sh.paths, sh.mdPath.D, sh.circ)))
 	for _, p := range []*mdicons.Path{sh.mdPath, sh.mdPathFill} {
 		h.Write([]byte(fmt.Sprint(p.D, p.Fill, p.FillOpacity == nil, p.Opacity == nil)))
@@ -257,6 +285,9 @@ func sharedHash18(sh *shared18) [32]byte {
 }
 
 var c18Warm bool
+
+// c18BufferIdentity counts results that depended on which buffer held the bytes.
+var c18BufferIdentity, c18BufferReuses int64
 
 type span18 struct {
 	s, e int64
@@ -331,6 +362,8 @@ func c18Round(c *run.Ctx, idx uint64) {
 	sh.grad.Init(render.ShapeRadial, render.SpreadReflect, render.Aff3{0.05, 0.01, -0.3, -0.02, 0.04, 0.2}, []render.Stop{
 		{Offset: 0.1, RGBA64: color.RGBA64{0xffff, 0, 0, 0xffff}}, {Offset: 0.4, RGBA64: color.RGBA64{0, 0x8080, 0, 0x8080}},
 		{Offset: 0.7, RGBA64: color.RGBA64{0, 0, 0xffff, 0xffff}}, {Offset: 0.95, RGBA64: color.RGBA64{}}})
+	sh.gradStops = []render.Stop{{Offset: 0.2, RGBA64: color.RGBA64{0xffff, 0, 0, 0xffff}}, {Offset: 0.5, RGBA64: color.RGBA64{0, 0xffff, 0, 0xffff}},
+		{Offset: 0.5, RGBA64: color.RGBA64{0, 0, 0xffff, 0xffff}}, {Offset: 0.9, RGBA64: color.RGBA64{0x8080, 0x8080, 0x8080, 0x8080}}}
 	fop := float32(0.38)
 	sh.mdPathFill = &mdicons.Path{D: "M2 3h4v5H2z", FillOpacity: &fop}
 	sh.factors = append(make([]float32, 0, 6), 2, 0.5, 3, 1.5) // a table of scale factors with spare capacity
@@ -436,6 +469,10 @@ func c18Round(c *run.Ctx, idx uint64) {
 	}
 	if sharedHash18(sh) != s0 {
 		c.Violate("shared-input-modified", desc)
+	}
+	c.Count("buffers_reused_for_another_graphic", atomic.SwapInt64(&c18BufferReuses, 0))
+	if n := atomic.SwapInt64(&c18BufferIdentity, 0); n != 0 {
+		c.Violate("result-depends-on-the-buffer-not-on-its-bytes", map[string]interface{}{"round": desc, "occurrences": n})
 	}
 	for g := range plans {
 		for t := range plans[g] {
